@@ -216,7 +216,7 @@ fn c12_seq_runs(tier: &str) -> Vec<(String, SeqParams)> {
             SeqParams {
                 alphabet: alpha(1, 2, false, false, true, ages),
                 cfg,
-                specs: vec![MEM_LIB, SQL_LIB, MEM_HTTP],
+                specs: vec![MEM_LIB, SQL_LIB, SQL_LIB_REOPEN, MEM_HTTP],
                 max_depth: depth,
                 unmerged_depth: 1,
                 monitors: vec!["C12"],
@@ -230,8 +230,8 @@ fn c12_seq_runs(tier: &str) -> Vec<(String, SeqParams)> {
         )
     };
     let mut v = vec![
-        mk("one client, targets (2 days, 2 versions), snapshot ageing 1..3 days", Config { days: 2, versions: 2 }, &[1, 2, 3], if quick { 6 } else { 9 }),
-        mk("one client, targets (3 days, 3 versions): odd targets", Config { days: 3, versions: 3 }, &[2, 3, 4, 5], if quick { 5 } else { 9 }),
+        mk("one client, targets (2 days, 2 versions), snapshot ageing 1..3 days", Config { days: 2, versions: 2 }, &[1, 2, 3], if quick { D1Q } else { D1T }),
+        mk("one client, targets (3 days, 3 versions): odd targets", Config { days: 3, versions: 3 }, &[2, 3, 4, 5], if quick { D1Q } else { D1T }),
     ];
     if !quick {
         for (d, vv) in [(0, 0), (1, 1), (0, 3), (3, 0), (1, 2), (2, 1)] {
@@ -243,6 +243,12 @@ fn c12_seq_runs(tier: &str) -> Vec<(String, SeqParams)> {
 
 // ---------------------------------------------------------------------------------------------
 // E-SEQ based checks
+
+/// Depth bounds: two(+)-client runs and one-client deep runs, quick / thorough.
+const D2Q: usize = 5;
+const D2T: usize = 6;
+const D1Q: usize = 8;
+const D1T: usize = 12;
 
 fn alpha(n_clients: u8, anc_max: u8, foreign: bool, dup: bool, snapshots: bool, ages: &[i64]) -> Alphabet {
     Alphabet {
@@ -283,8 +289,8 @@ pub fn seq_runs(id: &str, tier: &str) -> Vec<(String, SeqParams)> {
     let mut runs: Vec<(String, SeqParams)> = match id {
         "C01" => {
             let mut v = vec![
-                base("two clients, all id classes, five implementations", alpha(2, 2, true, false, true, &[]), all5.clone(), if quick { 3 } else { 5 }, if quick { 1 } else { 2 }),
-                base("one client, deep chain", alpha(1, 7, false, false, true, &[]), all5.clone(), if quick { 5 } else { 9 }, 1),
+                base("two clients, all id classes, five implementations", alpha(2, 2, true, false, true, &[]), all5.clone(), if quick { D2Q } else { D2T }, if quick { 1 } else { 2 }),
+                base("one client, deep chain", alpha(1, 7, false, false, true, &[]), all5.clone(), if quick { D1Q } else { D1T }, 1),
             ];
             for r in v.iter_mut() {
                 r.1.reopen_probe = true;
@@ -292,13 +298,13 @@ pub fn seq_runs(id: &str, tier: &str) -> Vec<(String, SeqParams)> {
             v
         }
         "C02" => vec![
-            base("two clients, all parent classes, library and HTTP on both backends", alpha(2, 3, true, true, true, &[]), four.clone(), if quick { 3 } else { 5 }, if quick { 1 } else { 2 }),
-            base("one client, deep chain", alpha(1, 7, false, true, true, &[]), four.clone(), if quick { 5 } else { 8 }, 1),
+            base("two clients, all parent classes, library and HTTP on both backends", alpha(2, 3, true, true, true, &[]), four.clone(), if quick { D2Q } else { D2T }, if quick { 1 } else { 2 }),
+            base("one client, deep chain", alpha(1, 7, false, true, true, &[]), four.clone(), if quick { D1Q } else { D1T }, 1),
         ],
         "C07" => {
             let mut v = vec![
-                base("two clients", alpha(2, 2, true, true, true, &[]), vec![MEM_LIB, SQL_LIB, SQL_LIB_REOPEN, MEM_HTTP], if quick { 3 } else { 5 }, if quick { 1 } else { 2 }),
-                base("one client, deep chain", alpha(1, 3, false, true, true, &[]), vec![MEM_LIB, SQL_LIB, SQL_LIB_REOPEN, SQL_HTTP], if quick { 5 } else { 9 }, 1),
+                base("two clients", alpha(2, 2, true, true, true, &[]), vec![MEM_LIB, SQL_LIB, SQL_LIB_REOPEN, MEM_HTTP], if quick { D2Q } else { D2T }, if quick { 1 } else { 2 }),
+                base("one client, deep chain", alpha(1, 3, false, true, true, &[]), vec![MEM_LIB, SQL_LIB, SQL_LIB_REOPEN, SQL_HTTP], if quick { D1Q } else { D1T }, 1),
             ];
             for r in v.iter_mut() {
                 r.1.reopen_probe = true;
@@ -306,11 +312,11 @@ pub fn seq_runs(id: &str, tier: &str) -> Vec<(String, SeqParams)> {
             v
         }
         "C08" => vec![
-            base("two clients, every class of p", alpha(2, 3, true, false, true, &[]), four.clone(), if quick { 3 } else { 5 }, if quick { 1 } else { 2 }),
-            base("one client, deep chain", alpha(1, 7, false, false, true, &[]), lib2.clone(), if quick { 5 } else { 9 }, 1),
+            base("two clients, every class of p", alpha(2, 3, true, false, true, &[]), four.clone(), if quick { D2Q } else { D2T }, if quick { 1 } else { 2 }),
+            base("one client, deep chain", alpha(1, 7, false, false, true, &[]), lib2.clone(), if quick { D1Q } else { D1T }, 1),
         ],
         "C09" => {
-            let mut v = vec![base("two clients quoting each other's ids", alpha(2, 1, true, true, true, &[]), lib2.clone(), if quick { 3 } else { 5 }, if quick { 1 } else { 2 })];
+            let mut v = vec![base("two clients quoting each other's ids", alpha(2, 1, true, true, true, &[]), lib2.clone(), if quick { D2Q } else { D2T }, if quick { 1 } else { 2 })];
             if !quick {
                 v.push(base("three clients", alpha(3, 1, true, false, true, &[]), lib2.clone(), 4, 1));
             }
@@ -320,17 +326,17 @@ pub fn seq_runs(id: &str, tier: &str) -> Vec<(String, SeqParams)> {
             v
         }
         "C10" => vec![
-            base("one client, deep chain, every snapshot position and every v", alpha(1, 7, false, false, true, &[1]), lib2.clone(), if quick { 6 } else { 10 }, 1),
-            base("two clients, foreign ids", alpha(2, 2, true, true, true, &[]), lib2.clone(), if quick { 3 } else { 5 }, if quick { 1 } else { 2 }),
+            base("one client, deep chain, every snapshot position and every v", alpha(1, 7, false, false, true, &[1]), lib2.clone(), if quick { D1Q } else { D1T }, 1),
+            base("two clients, foreign ids", alpha(2, 2, true, true, true, &[]), lib2.clone(), if quick { D2Q } else { D2T }, if quick { 1 } else { 2 }),
         ],
         "C11" => vec![
-            base("one client, deep chain", alpha(1, 6, false, true, true, &[]), lib2.clone(), if quick { 6 } else { 9 }, 1),
-            base("two clients", alpha(2, 2, true, false, true, &[]), four.clone(), if quick { 3 } else { 5 }, if quick { 1 } else { 2 }),
+            base("one client, deep chain", alpha(1, 6, false, true, true, &[]), lib2.clone(), if quick { D1Q } else { D1T }, 1),
+            base("two clients", alpha(2, 2, true, false, true, &[]), four.clone(), if quick { D2Q } else { D2T }, if quick { 1 } else { 2 }),
         ],
         "C13" => {
             let mut v = vec![
-                base("two clients, lock step of in-memory, SQLite, SQLite reopened before every request", alpha(2, 2, true, true, true, &[1, 2]), vec![MEM_LIB, SQL_LIB, SQL_LIB_REOPEN], if quick { 3 } else { 5 }, if quick { 2 } else { 3 }),
-                base("one client, deep chain", alpha(1, 6, false, false, true, &[2]), vec![MEM_LIB, SQL_LIB, SQL_LIB_REOPEN], if quick { 5 } else { 9 }, 1),
+                base("two clients, lock step of in-memory, SQLite, SQLite reopened before every request", alpha(2, 2, true, true, true, &[1, 2]), vec![MEM_LIB, SQL_LIB, SQL_LIB_REOPEN], if quick { D2Q } else { D2T }, if quick { 2 } else { 3 }),
+                base("one client, deep chain", alpha(1, 6, false, false, true, &[2]), vec![MEM_LIB, SQL_LIB, SQL_LIB_REOPEN], if quick { D1Q } else { D1T }, 1),
             ];
             for r in v.iter_mut() {
                 r.1.reopen_probe = true;
@@ -338,12 +344,12 @@ pub fn seq_runs(id: &str, tier: &str) -> Vec<(String, SeqParams)> {
             v
         }
         "C14" => vec![
-            base("two clients, HTTP and library twins on both backends, ageing snapshots", alpha(2, 2, true, false, true, &[2, 3]), four.clone(), if quick { 3 } else { 5 }, if quick { 1 } else { 2 }),
-            base("one client, deep chain", alpha(1, 5, false, false, true, &[2, 3]), four.clone(), if quick { 5 } else { 8 }, 1),
+            base("two clients, HTTP and library twins on both backends, ageing snapshots", alpha(2, 2, true, false, true, &[2, 3]), four.clone(), if quick { D2Q } else { D2T }, if quick { 1 } else { 2 }),
+            base("one client, deep chain", alpha(1, 5, false, false, true, &[2, 3]), four.clone(), if quick { D1Q } else { D1T }, 1),
         ],
         "C18" => vec![
-            base("two clients, every non-mutating outcome", alpha(2, 3, true, false, true, &[1]), four.clone(), if quick { 3 } else { 5 }, if quick { 1 } else { 2 }),
-            base("one client, deep chain", alpha(1, 7, false, false, true, &[]), four.clone(), if quick { 5 } else { 8 }, 1),
+            base("two clients, every non-mutating outcome", alpha(2, 3, true, false, true, &[1]), four.clone(), if quick { D2Q } else { D2T }, if quick { 1 } else { 2 }),
+            base("one client, deep chain", alpha(1, 7, false, false, true, &[]), four.clone(), if quick { D1Q } else { D1T }, 1),
         ],
         _ => vec![],
     };
@@ -362,6 +368,14 @@ pub fn seq_runs(id: &str, tier: &str) -> Vec<(String, SeqParams)> {
     };
     for r in runs.iter_mut() {
         r.1.monitors = mons.clone();
+        // the repeated-payload alphabet doubles the branching: one level less in the quick tier
+        // keeps the run exhaustive within its bound (no state cap hit)
+        if quick && r.1.alphabet.dup_payload {
+            r.1.max_depth -= 1;
+        }
+        if quick && id == "C13" && r.1.alphabet.n_clients > 1 {
+            r.1.max_depth = 4;
+        }
     }
     runs
 }
@@ -701,8 +715,8 @@ fn c16_c20_seq_runs(id: &str, tier: &str) -> Vec<(String, SeqParams)> {
         )
     };
     match id {
-        "C20" => vec![mk("every HTTP response of the history exploration", vec![MEM_HTTP, SQL_HTTP], vec!["C20"], alpha(2, 2, true, false, true, &[2, 3]), if quick { 3 } else { 5 })],
-        "C16" => vec![mk("listed clients: allow-listed servers in lock step with list-less twins", vec![MEM_HTTP, crate::sut::MEM_HTTP_ALLOW, SQL_HTTP, crate::sut::SQL_HTTP_ALLOW], vec!["C16"], alpha(2, 2, true, false, true, &[2]), if quick { 3 } else { 5 })],
+        "C20" => vec![mk("every HTTP response of the history exploration", vec![MEM_HTTP, SQL_HTTP], vec!["C20"], alpha(2, 2, true, false, true, &[2, 3]), if quick { D2Q } else { D2T })],
+        "C16" => vec![mk("listed clients: allow-listed servers in lock step with list-less twins", vec![MEM_HTTP, crate::sut::MEM_HTTP_ALLOW, SQL_HTTP, crate::sut::SQL_HTTP_ALLOW], vec!["C16"], alpha(2, 2, true, false, true, &[2]), if quick { D2Q } else { D2T })],
         _ => vec![],
     }
 }
